@@ -13,7 +13,12 @@
   (`str.isidentifier() and not keyword`), `Env.parsable`
   (`PythonBlock.parsable_as_expression`, i.e. CPython's parser) and
   `Env.outcome` (what `namespace.auto_eval` does with a text: a value, an
-  `UnimportableNameError`, or another exception).
+  `UnimportableNameError`, or another exception), and `Env.compileRaises`
+  (CPython's `compile()` gives up on the text with something other than a
+  `SyntaxError`: `UnicodeEncodeError` for lone surrogates — what argv holds for
+  a file name with a non-UTF-8 byte —, `RecursionError` / `MemoryError` for
+  very long or deeply nested text; `PythonBlock` records all of these as
+  "not parsable", so in auto mode the original string is delivered).
 
   `Env.exactFirst = false` is the code as it stands; `true` is the code with
   `fixes/C15-D16.diff` (an exact parameter name wins over the names it is a
@@ -76,6 +81,7 @@ structure Env where
   parsable : Str → Bool
   outcome : Str → Outcome
   exactFirst : Bool
+  compileRaises : Str → Bool := fun _ => false
 
 /-- A `UserExpr`: a user string with its argument mode (`"string"` is
     `raw_value`), or the `raw_value` expression of a parameter default. -/
@@ -99,6 +105,7 @@ def evalExpr (env : Env) : Expr → Except PErr Val
       | _ => .error .evalError
   | .user s .auto =>
     if blank s then .ok (.raw s)
+    else if env.compileRaises s then .ok (.raw s)   -- `except Exception` in `_ast_node_or_parse_exception`
     else if !env.parsable s then .ok (.raw s)
     else match env.outcome s with
       | .value => .ok (.evaluated s)
